@@ -15,13 +15,17 @@ structure GoodName (n : Str) : Prop where
   wire : WireName n
   short : n.length ≤ PCP_NAME_MAX
 
-theorem nameOk_plain (rep : Bool) {n : Str} (h : PlainName n) : nameOk rep n = true := by
-  unfold nameOk
-  split
-  · simp only [scpNameOk, Bool.and_eq_true, Bool.not_eq_true', List.isEmpty_eq_false_iff,
+theorem nameOk_plain (rule : NameRule) {n : Str} (h : PlainName n) : nameOk rule n = true := by
+  cases rule with
+  | none => rfl
+  | slashDotdot =>
+    simp only [nameOk, narrowNameOk, Bool.and_eq_true, Bool.not_eq_true', List.contains_eq_mem,
+      decide_eq_false_iff_not, beq_eq_false_iff_ne]
+    exact ⟨h.noslash, h.nodotdot⟩
+  | scp =>
+    simp only [nameOk, scpNameOk, Bool.and_eq_true, Bool.not_eq_true', List.isEmpty_eq_false_iff,
       List.contains_eq_mem, decide_eq_false_iff_not, beq_eq_false_iff_ne]
     exact ⟨⟨⟨h.ne, h.noslash⟩, h.nodot⟩, h.nodotdot⟩
-  · rfl
 
 /-! ## digit strings are short -/
 
@@ -72,7 +76,7 @@ theorem handleRecord_times {st : St} {f : Frame} {rest : List Frame} (hs : st.st
 
 theorem handleRecord_ctl {st : St} {f : Frame} {rest : List Frame} (hs : st.stack = f :: rest)
     {line : Str} {ch : UInt8} {isDir : Bool} {mode : Nat} {size : Int} {name : Str}
-    (hc : classify line ch = .ctl isDir mode size name) (hn : nameOk o.repaired name = true)
+    (hc : classify line ch = .ctl isDir mode size name) (hn : nameOk o.rule name = true)
     (htd : f.targisdir = true) :
     handleRecord o st line ch =
       if isDir then handleDir o st (joinName f.targ name) mode
@@ -96,8 +100,8 @@ theorem handleFile_fresh {st : St} {np : Str} {q : Path} {n : Str} (mode : Nat) 
     (ht : trailingSlash np = false) :
     handleFile o st np mode size =
       if size ≤ 0 then
-        afterData { st with fs := (st.fs.bumpDir q).set (q ++ [n]) (.file (maskOff mode o.eumask) none []),
-                            touched := (q ++ [n]) :: st.touched, out := .ack :: st.out }
+        afterData o { st with fs := (st.fs.bumpDir q).set (q ++ [n]) (.file (maskOff mode o.eumask) none []),
+                              touched := (q ++ [n]) :: st.touched, out := .ack :: st.out }
           (q ++ [n]) np size 0 [] []
       else
         { st with fs := (st.fs.bumpDir q).set (q ++ [n]) (.file (maskOff mode o.eumask) none []),
@@ -108,15 +112,17 @@ theorem handleFile_fresh {st : St} {np : Str} {q : Path} {n : Str} (mode : Nat) 
     Bool.false_eq_true, ↓reduceIte]
   rfl
 
-/-- end of the data of a file that was just created (`old` contents empty): it holds exactly `w` -/
+/-- end of the data of a file that was just created (`old` contents empty), no write faults: it holds
+exactly `w` -/
 theorem afterData_created {st : St} {p : Path} {np : Str} {mode : Nat} {tm : Option Time} {count : Nat}
-    {pr wr w : Str} (hf : st.fs p = some (.file mode tm []))
+    {pr wr w : Str} (hnf : o.fsize = none) (hf : st.fs p = some (.file mode tm []))
     (hw : (if count ≠ 0 then pr ++ wr else wr) = w.reverse) :
-    afterData st p np (w.length : Int) count pr wr =
-      { st with fs := st.fs.set p (.file mode none w), phase := .resp np false } := by
+    afterData o st p np (w.length : Int) count pr wr =
+      { st with fs := st.fs.set p (.file mode none w), phase := .resp np .no } := by
   unfold afterData
   have hlt : ¬ ((w.length : Int) < 0) := by omega
-  simp only [hw, List.reverse_reverse, hlt, ↓reduceIte, Int.toNat_natCast]
+  simp only [collected, hw, List.reverse_reverse, hlt, ↓reduceIte, Int.toNat_natCast, Opts.writable,
+    Opts.truncFails, Opts.writeFails, hnf, Bool.false_eq_true]
   congr 1
   by_cases he : w = []
   · subst he
@@ -221,7 +227,7 @@ def recvFile (o : Opts) (m : Nat) (tm : Option Time) (d : Str) : Node :=
 directory `q`), with `name` not yet present, the bytes `C<mode> <size> <name>\n <data> \0` install
 exactly that file, are acknowledged twice and touch only `q/name`; a pending `T` record becomes the
 file's modification time. -/
-theorem feed_C (hc : CntOk o) {st : St} {f : Frame} {rest : List Frame} {q : Path}
+theorem feed_C (hc : CntOk o) (hnf : o.fsize = none) {st : St} {f : Frame} {rest : List Frame} {q : Path}
     (hph : st.phase = .start) (hs : st.stack = f :: rest) (htd : f.targisdir = true)
     (hr : resolve st.fs o.cwd f.targ = some q) (hd : st.fs.isDir q = true)
     {n : Str} (hn : GoodName n) (hfresh : st.fs (q ++ [n]) = none)
@@ -252,7 +258,7 @@ theorem feed_C (hc : CntOk o) {st : St} {f : Frame} {rest : List Frame} {q : Pat
   -- the state after the data
   have hdata : d.foldl (step o)
       (if (d.length : Int) ≤ 0 then
-        afterData { st with fs := fs2, touched := (q ++ [n]) :: st.touched, out := .ack :: st.out }
+        afterData o { st with fs := fs2, touched := (q ++ [n]) :: st.touched, out := .ack :: st.out }
           (q ++ [n]) (joinName f.targ n) d.length 0 [] []
       else
         { st with fs := fs2, touched := (q ++ [n]) :: st.touched, out := .ack :: st.out,
@@ -260,11 +266,11 @@ theorem feed_C (hc : CntOk o) {st : St} {f : Frame} {rest : List Frame} {q : Pat
                     (min BUFSZ (d.length : Int).toNat) (min BUFSZ (d.length : Int).toNat) 0 [] [] }) =
       { st with fs := fs2.set (q ++ [n]) (.file (maskOff (m &&& RCP_MODEMASK) o.eumask) none d),
                 touched := (q ++ [n]) :: st.touched, out := .ack :: st.out,
-                phase := .resp (joinName f.targ n) false } := by
+                phase := .resp (joinName f.targ n) .no } := by
     by_cases hd0 : d = []
     · subst hd0
       simp only [List.length_nil, Int.natCast_zero, Int.le_refl, ↓reduceIte, List.foldl_nil]
-      exact afterData_created (w := []) hfs2p (by simp)
+      exact afterData_created (w := []) hnf hfs2p (by simp)
     · have hpos : 0 < d.length := List.length_pos_iff.2 hd0
       have hnle : ¬ ((d.length : Int) ≤ 0) := by omega
       simp only [hnle, ↓reduceIte, Int.toNat_natCast]
@@ -279,7 +285,7 @@ theorem feed_C (hc : CntOk o) {st : St} {f : Frame} {rest : List Frame} {q : Pat
           simp only [phaseOk, BUFSZ_eq] at *
           exact ⟨by omega, by omega, by omega, by omega, fun hlt => by omega⟩) rfl rfl
       rw [he]
-      exact afterData_created hfs2p (by simpa using hw)
+      exact afterData_created hnf hfs2p (by simpa using hw)
   rw [hdata]
   -- the response byte
   simp only [List.foldl_cons, List.foldl_nil]
@@ -292,7 +298,7 @@ theorem feed_C (hc : CntOk o) {st : St} {f : Frame} {rest : List Frame} {q : Pat
     rw [← hfs2, set_set]
   by_cases hset' : f.setimes = true
   · -- a `T` record is pending: utimes
-    simp only [hset', Bool.not_false, Bool.and_self, ↓reduceIte]
+    simp only [hset', beq_self_eq_true, Bool.and_self, ↓reduceIte]
     have hmono : DirMono st.fs (fs2.set (q ++ [n]) (.file (maskOff (m &&& RCP_MODEMASK) o.eumask) none d)) := by
       rw [hset]
       exact (dirMono_bumpDir _ _).trans (dirMono_set_fresh _ (bumpDir_none _ _ _ hfresh))
@@ -321,16 +327,18 @@ variable {o : Opts}
 
 /-! ## `T`, `D` and `E` records -/
 
-def tBody (t a : Nat) : Str := dec t ++ cSp :: (dec 0 ++ cSp :: (dec a ++ cSp :: (dec 0 ++ [])))
+def tBody (t u a v : Nat) : Str := dec t ++ cSp :: (dec u ++ cSp :: (dec a ++ cSp :: (dec v ++ [])))
 
-theorem tRecord_eq (t a : Nat) : tRecord t a = cT :: tBody t a ++ [cNl] := by
-  simp [tRecord, tBody, dec_zero]
+theorem tRecord_eq (t u a v : Nat) : tRecord t u a v = cT :: tBody t u a v ++ [cNl] := by
+  simp [tRecord, tBody]
 
-theorem tBody_props (t a : Nat) (ht : t < 2 ^ 63) (ha : a < 2 ^ 63) :
-    cNl ∉ tBody t a ∧ (∀ x ∈ tBody t a, x ≠ 0) ∧ (tBody t a).length + 2 < BUFSZ - 1 := by
+theorem tBody_props (t u a v : Nat) (ht : t < 2 ^ 63) (hu : u < 2 ^ 63) (ha : a < 2 ^ 63) (hv : v < 2 ^ 63) :
+    cNl ∉ tBody t u a v ∧ (∀ x ∈ tBody t u a v, x ≠ 0) ∧ (tBody t u a v).length + 2 < BUFSZ - 1 := by
   have hB := BUFSZ_eq
   have h1 := dec_length_le t ht
   have h2 := dec_length_le a ha
+  have h3 := dec_length_le u hu
+  have h4 := dec_length_le v hv
   have hnl : ∀ k, ∀ x ∈ dec k, x ≠ cNl := fun k => dec_mem k (· ≠ cNl) (fun d hd => digitByte_ne_nl hd)
   have hz : ∀ k, ∀ x ∈ dec k, x ≠ 0 := fun k => dec_mem k (· ≠ 0) (fun d hd => digitByte_ne_zero hd)
   refine ⟨?_, ?_, ?_⟩
@@ -354,16 +362,16 @@ theorem tBody_props (t a : Nat) (ht : t < 2 ^ 63) (ha : a < 2 ^ 63) :
     · exact hz _ _ h
     · subst h; decide
     · exact hz _ _ h
-  · simp only [tBody, List.length_append, List.length_cons, dec_zero, List.length_nil]
+  · simp only [tBody, List.length_append, List.length_cons, List.length_nil]
     omega
 
 /-- a `T` record is acknowledged and remembered in the current level -/
 theorem feed_T {st : St} {f : Frame} {rest : List Frame} (hph : st.phase = .start) (hs : st.stack = f :: rest)
-    (t a : Nat) (ht : t < 2 ^ 63) (ha : a < 2 ^ 63) :
-    (tRecord t a).foldl (step o) st =
+    (t u a v : Nat) (ht : t < 2 ^ 63) (hu : u < 2 ^ 63) (ha : a < 2 ^ 63) (hv : v < 2 ^ 63) :
+    (tRecord t u a v).foldl (step o) st =
       { st with out := .ack :: st.out,
-                stack := { f with setimes := true, mt := ⟨t, 0⟩, atm := ⟨a, 0⟩ } :: rest, phase := .start } := by
-  obtain ⟨hnl, hz, hlen⟩ := tBody_props t a ht ha
+                stack := { f with setimes := true, mt := ⟨t, u⟩, atm := ⟨a, v⟩ } :: rest, phase := .start } := by
+  obtain ⟨hnl, hz, hlen⟩ := tBody_props t u a v ht hu ha hv
   rw [tRecord_eq, foldl_line st hph cT _ (by decide) hnl hlen]
   apply handleRecord_times hs
   rw [classify_line cT _ (by decide) (by decide) (by decide) (by
@@ -374,7 +382,7 @@ theorem feed_T {st : St} {f : Frame} {rest : List Frame} (hph : st.phase = .star
     · exact hz x hx)]
   simp only [↓reduceIte]
   unfold classifyT tBody
-  rw [parseTimes_print t a ht ha]
+  rw [parseTimes_print t u a v ht hu ha hv]
 
 theorem statIsDir_of {fs : FS} {cwd : Path} {s : Str} {p : Path} (hr : resolve fs cwd s = some p)
     (hd : fs.isDir p = true) : statIsDir fs cwd s = true := by
@@ -412,9 +420,20 @@ theorem enter_ok {st : St} {targ : Str} {p : Path} (hv : VerifyOk o st.fs)
       simp [statIsDir_of hr' hd']
   simp only [hver, Bool.false_eq_true, ↓reduceIte, St.reply, statIsDir_of hr hd]
 
+/-- the mode a directory of the source gets when it is created: what `mkdir` makes of it, or -- in the
+repaired receiver with -p -- the received mode itself (`chmod` after `mkdir`) -/
+def recvDirMode (o : Opts) (fs : FS) (q : Path) (n : Str) (m : Nat) : Nat :=
+  if o.preserve && o.dirChmod then (m &&& RCP_MODEMASK) % 4096
+  else mkdirMode (m &&& RCP_MODEMASK) o.eumask (parentMode fs (q ++ [n]))
+
 /-- the node a directory of the source arrives as when it is created -/
 def recvDirNode (o : Opts) (fs : FS) (q : Path) (n : Str) (m : Nat) : Node :=
-  .dir (mkdirMode (m &&& RCP_MODEMASK) o.eumask (parentMode fs (q ++ [n]))) none
+  .dir (recvDirMode o fs q n m) none
+
+theorem fchmodAt_set_dir (fs : FS) (p : Path) (mm mode : Nat) (t : Option Time) :
+    fchmodAt (fs.set p (.dir mm t)) p mode = fs.set p (.dir (mode % 4096) t) := by
+  funext x
+  by_cases e : x = p <;> simp [fchmodAt, FS.set, e, Node.setMode]
 
 /-- **A `D` record for a new name** creates the directory and opens a level inside it. -/
 theorem feed_D {st : St} {f : Frame} {rest : List Frame} {q : Path}
@@ -439,13 +458,25 @@ theorem feed_D {st : St} {f : Frame} {rest : List Frame} {q : Path}
   have hrj := resolve_join hr hd hn.plain hn.short hlen
   unfold handleDir
   simp only [stat_fresh hrj hfresh, mkdir_fresh _ _ hrj hfresh]
+  have hnode : (if (o.preserve && o.dirChmod) = true then
+        fchmodAt ((st.fs.bumpDir q).set (q ++ [n])
+          (.dir (mkdirMode (m &&& RCP_MODEMASK) o.eumask (parentMode st.fs (q ++ [n]))) none)) (q ++ [n])
+          (m &&& RCP_MODEMASK)
+      else (st.fs.bumpDir q).set (q ++ [n])
+          (.dir (mkdirMode (m &&& RCP_MODEMASK) o.eumask (parentMode st.fs (q ++ [n]))) none)) =
+      (st.fs.bumpDir q).set (q ++ [n]) (recvDirNode o st.fs q n m) := by
+    unfold recvDirNode recvDirMode
+    split
+    · rw [fchmodAt_set_dir]
+    · rfl
+  rw [hnode]
   have hmono : DirMono st.fs ((st.fs.bumpDir q).set (q ++ [n]) (recvDirNode o st.fs q n m)) :=
     (dirMono_bumpDir _ _).trans (dirMono_set_fresh _ (bumpDir_none _ _ _ hfresh))
   rw [enter_ok (p := q ++ [n])]
-  · simp only [St.touch, hs, recvDirNode]
+  · simp only [St.touch, hs]
   · exact verifyOk_mono hmono hv
   · exact resolve_mono hmono hrj
-  · simp only [St.touch, FS.isDir, set_self, Node.isDir]
+  · simp only [St.touch, FS.isDir, set_self, recvDirNode, Node.isDir]
 
 theorem exitFlag_eq : exitFlag = cE :: [] ++ [cNl] := by decide
 
